@@ -271,6 +271,7 @@ def check_history(case):
             # 3. report, after every step
             _check_report(cleaner, cfg.rhsm_facts_file, fqdn, seen, occurred, canon, step)
 
+        _check_csv(cleaner, tmp)
         recurs = any(len(s) >= 2 for s in steps_of.values())
         if recurs:
             labels.add("original-recurs-in-2-specs")
@@ -348,6 +349,18 @@ def _check_report(cleaner, facts_file, fqdn, seen, occurred, canon, step):
             if orig in seen[cls] and subs != set([seen[cls][orig]]):
                 raise Violation("report: %s original %r is listed with %s but the output shows %r"
                                 % (cls, orig, sorted(subs), seen[cls][orig]), step=step, mapping=listed)
+
+
+def _check_csv(cleaner, tmp):
+    """the CSV reports of generate_report() carry the same pairs as mapping() (IPv4, host, MAC)"""
+    cleaner.report_dir = tmp
+    cleaner.generate_report("c09")
+    for cls, suffix in (("ip", "ip"), ("host", "hostname"), ("mac", "mac")):
+        with open(os.path.join(tmp, "c09-%s.csv" % suffix)) as fh:
+            rows = [ln.rstrip("\n").split(",") for ln in fh][1:]
+        want = sorted([e["obfuscated"], e["original"]] for e in cleaner.obfuscate[OBF_NAME[cls]].mapping())
+        if sorted(rows) != want:
+            raise Violation("report: %s CSV report and mapping() differ" % OBF_NAME[cls], csv=rows, mapping=want)
 
 
 # ---- generator -----------------------------------------------------------------------------------
